@@ -364,7 +364,7 @@ func runIsolatedCases(c *vm.Ctx) {
 		add(fmt.Sprintf("deep-nesting/compounds.%d.closed", depth), fmt.Sprintf("%d nested compounds, all closed", depth), closed, true)
 		add(fmt.Sprintf("deep-nesting/lists.%d", depth), fmt.Sprintf("%d nested single-element lists", depth), list, true)
 	}
-	c.RunIsolated("c03", cases, 120*time.Second, func(i int, cs *vm.IsoCase, r vm.IsoResult) {
+	c.RunIsolated("c03", cases, 8, 300*time.Second, func(i int, cs *vm.IsoCase, r vm.IsoResult) {
 		c.Eval(vm.Hash64(cs.Input, []byte(cs.Class)), true)
 		wit := map[string]any{"what": cs.Name, "input_len": len(cs.Input), "input_head_hex": vm.Hex(cs.Input[:min(len(cs.Input), 48)]), "address_space_limit": "1 GiB (ulimit -v)"}
 		switch {
